@@ -224,6 +224,12 @@ fn random_class(r: &mut StdRng, density: f64, long_p: f64) -> &'static str {
 
 fn random_title(r: &mut StdRng) -> String {
     let n = match r.gen_range(0..6) { 0 => 0, 1 => 1, 2 => r.gen_range(30..80), _ => r.gen_range(1..24) };
+    // titles that begin / end with white space (ASCII and Unicode) are their own class: text fields get "normalised" easily
+    if r.gen_range(0..8) == 0 {
+        let ws = [" ", "\t", "\u{A0}", "\u{3000}", "  "];
+        let core: String = (0..n.max(1)).map(|_| r.gen_range(0x21u8..0x7F) as char).collect();
+        return match r.gen_range(0..3) { 0 => format!("{}{core}", ws[r.gen_range(0..5)]), 1 => format!("{core}{}", ws[r.gen_range(0..5)]), _ => format!("{}{core}{}", ws[r.gen_range(0..5)], ws[r.gen_range(0..5)]) };
+    }
     (0..n).map(|_| match r.gen_range(0..5) { 0 => unicode_scalar(r), 1 => ['ä', 'ß', '€', '日', '本', '\u{1F600}', ' ', '~', '\t'][r.gen_range(0..9)], _ => r.gen_range(0x20u8..0x7F) as char }).collect()
 }
 
@@ -296,7 +302,8 @@ fn new_doc(r: &mut StdRng, size: (i32, i32), pal_len: usize, pages: &[usize], fo
 
 /// A layer whose `lines` are written directly (set_char refuses locked / hidden layers), rows given as cells.
 fn make_layer(title: String, w: i32, h: i32, rows: Vec<Vec<AttributedChar>>) -> Layer {
-    let mut l = Layer::new(title, (w, h));
+    // a client names a layer either when it creates it or afterwards (set_title): both ways, chosen by the title itself
+    let mut l = if title.chars().count() % 2 == 0 { Layer::new(title, (w, h)) } else { let mut l = Layer::new("", (w, h)); l.set_title(title); l };
     l.lines = rows.into_iter().map(|chars| Line { chars }).collect();
     l
 }
